@@ -34,6 +34,9 @@ func main() {
 		if prep == nil || f == nil {
 			core.Troublef("no replayer for property %s", rp.Property)
 		}
+		if b := checks.BeforeReplay[rp.Property]; b != nil {
+			b(rp)
+		}
 		prep(c)
 		violated, detail := f(c, rp)
 		if violated {
